@@ -13,6 +13,8 @@ r = subprocess.run(["git", "-C", "/repo", "apply", "--3way", patch], capture_out
 if r.returncode != 0:
     r = subprocess.run(["git", "-C", "/repo", "apply", patch], capture_output=True, text=True)
 if r.returncode != 0:
+    # a failed 3-way attempt can leave conflict markers / unmerged index entries behind
+    subprocess.run(["git", "-C", "/repo", "reset", "-q", "--hard", "HEAD"])
     print("patch does not apply:\n" + r.stderr)
     sys.exit(3)
 caught = False
